@@ -64,6 +64,24 @@ func (u *Unit) cutLoop(st *State, fr *Frame, b *ssa.BasicBlock, lc *LoopContract
 	if !u.havocLoop(st, fr, lc) {
 		return nil
 	}
+	if st.tlen != nil || u.loopCallsBack(lc) {
+		// the callback trace only grows: entries below the old length are kept
+		if st.tlen == nil {
+			st.tlen, st.targ, st.tret = IntK(0), nil, nil
+		}
+		oldLen, oldArg, oldRet := st.tlen, st.targ, st.tret
+		st.tlen = Fresh("cb.len", SortInt)
+		st.assume(IntLe(oldLen, st.tlen))
+		if oldArg != nil {
+			st.targ = baseMem{Fresh("cb.arg", ArrSort(SortInt, oldArg.sort()))}
+			st.tret = baseMem{Fresh("cb.ret", ArrSort(SortInt, SortBool))}
+			na, nr := st.targ, st.tret
+			st.qh = append(st.qh, &QHyp{text: "callback trace prefix", n: 1, sorts: []*Sort{SortInt}, inst: func(ks []*Term) *Term {
+				k := ks[0]
+				return Implies(And(IntLe(IntK(0), k), IntLt(k, oldLen)), And(Eq(na.read(k), oldArg.read(k)), Eq(nr.read(k), oldRet.read(k))))
+			}})
+		}
+	}
 	if u.loopAllocates(fr, lc) {
 		a0 := st.alloc
 		st.alloc = Fresh("alloc.loop", SortInt)
@@ -742,4 +760,19 @@ func (u *Unit) onlyGrown(fr *Frame, lc *LoopContract, a *ssa.Alloc) bool {
 		}
 	}
 	return true
+}
+
+// loopCallsBack: does the loop body call through a function value?
+func (u *Unit) loopCallsBack(lc *LoopContract) bool {
+	for blk := range lc.body {
+		for _, in := range blk.Instrs {
+			if c, ok := in.(*ssa.Call); ok {
+				cc := c.Common()
+				if _, isB := cc.Value.(*ssa.Builtin); !isB && !cc.IsInvoke() && cc.StaticCallee() == nil {
+					return true
+				}
+			}
+		}
+	}
+	return false
 }
